@@ -32,8 +32,10 @@ def _build_parse_stack(
     if append_middleware is None:
         return list(parse_stack)
 
+    # Materialize once: an iterator would be exhausted by the duplicate check below.
+    appended = list(append_middleware)
     parse_stack_types = [type(m) for m in parse_stack]
-    append_stack_types = {type(m) for m in append_middleware}
+    append_stack_types = {type(m) for m in appended}
     stack_types_intersect = set(parse_stack_types).intersection(append_stack_types)
     if len(stack_types_intersect) > 0:
         warnings.warn(
@@ -41,7 +43,7 @@ def _build_parse_stack(
             f"already in the default parse_stack ({stack_types_intersect})."
         )
 
-    return list(parse_stack) + list(append_middleware)
+    return list(parse_stack) + appended
 
 
 def _build_unparse_stack(
@@ -62,8 +64,10 @@ def _build_unparse_stack(
     if prepend_middleware is None:
         return list(unparse_stack)
 
+    # Materialize once: an iterator would be exhausted by the duplicate check below.
+    prepended = list(prepend_middleware)
     parse_stack_types = [type(m) for m in unparse_stack]
-    append_stack_types = {type(m) for m in prepend_middleware}
+    append_stack_types = {type(m) for m in prepended}
     stack_types_intersect = set(parse_stack_types).intersection(append_stack_types)
     if len(stack_types_intersect) > 0:
         warnings.warn(
@@ -71,7 +75,7 @@ def _build_unparse_stack(
             f"already in the default parse_stack ({stack_types_intersect})."
         )
 
-    return list(prepend_middleware) + list(unparse_stack)
+    return prepended + list(unparse_stack)
 
 
 def parse_string(
